@@ -16,6 +16,8 @@ package message
 
 import (
 	"bytes"
+	"io"
+	"math"
 	"reflect"
 	"sync"
 
@@ -68,6 +70,9 @@ func (c *messageCodec) DecodeTo(d *binary.Decoder, rv reflect.Value) (err error)
 func readBytes(d *binary.Decoder) (buffer []byte, err error) {
 	var l uint64
 	if l, err = d.ReadUvarint(); err == nil && l > 0 {
+		if l > math.MaxInt32 {
+			return nil, io.ErrUnexpectedEOF // does not fit any frame (and would be negative as an int)
+		}
 		buffer, err = d.Slice(int(l))
 	}
 	return
